@@ -486,6 +486,51 @@ def c11_5(ck, prog):
             r.ok('get_buffer:never-a-zero-byte-read')
 
 
+def c11_8(ck, prog):
+    """The errno predicates the I/O paths branch on test the errno they are named after."""
+    def strip(e):
+        while e is not None and e.get('k') in ('paren', 'cast'):
+            e = e['e']
+        return e
+    r = ck.rule('C11.8', 'each errno predicate _dbus_get_is_errno_<name> compares its argument for equality with the '
+                'errno constant(s) it is named after and with nothing else', 'TAB',
+                breaks='the I/O loops take the wrong branch on a system-call failure: a write interrupted by a signal '
+                'is treated as a broken pipe (the connection is dropped in the middle of a message), or a peer that '
+                'went away is retried forever', floor=4)
+    n = 0
+    for f in prog.funcs.values():
+        if not f.name.startswith('_dbus_get_is_errno_') or not prog.is_production(f) or not f.params:
+            continue
+        want = {w.upper() for w in f.name[len('_dbus_get_is_errno_'):].split('_or_')}
+        pid = f.params[0]['id']
+        got, other = set(), []
+        for b, i, ev in f.events():
+            if ev['ev'] != 'return' or ev.get('e') is None:
+                continue
+            for x in walk(ev['e']):
+                if x.get('k') == 'bin' and x['op'] in ('==', '!=', '<', '>', '<=', '>='):
+                    sides = [x['l'], x['r']]
+                    ref = [y for y in sides if is_ref(strip(y)) and strip(y).get('id') == pid]
+                    con = [strip(y) for y in sides if is_int(strip(y))]
+                    if x['op'] == '==' and len(ref) == 1 and len(con) == 1 and con[0].get('name'):
+                        got.add(con[0]['name'])
+                    else:
+                        other.append(estr(x))
+            top = strip(ev['e'])
+            if not (top.get('k') == 'bin' and top['op'] in ('==', '||')):
+                other.append(estr(top))
+        n += 1
+        key = '%s:tests-its-errno' % f.name
+        if other or not got or not got <= want:
+            r.violation(key, f.name, f.file, f.line, '%s answers %s' % (
+                f.name, ('whether its argument is ' + ' / '.join(sorted(got))) if got and not other else
+                ('with ' + '; '.join(other)) if other else 'without comparing its argument'))
+        else:
+            r.ok(key, {'errno': sorted(got)})
+    if n < 4:
+        raise AnalysisBroken('only %d errno predicates found' % n)
+
+
 def run(ck):
     ck.explanation = (
         'Static rules over dbus-message.c, dbus-marshal-header.c, dbus-transport.c, dbus-auth.c: load_message uses '
@@ -511,6 +556,7 @@ def run(ck):
         c11_5(ck, prog)
         c11_6(ck, prog)
         c11_7(ck, prog)
+        c11_8(ck, prog)
         from rules.C05 import QUEUES, c05_4
         r4 = ck.rule('C11.4', 'the loader queue and the connection\'s incoming queue are FIFOs (shared with C05.4)',
                      'TAB', floor=4)
